@@ -240,6 +240,139 @@ theorem queue_full_only_drops_request (g : GSet) (db : List (VaaId × Bytes)) (n
   rw [ho] at ho'; cases ho'
   simpa using he'
 
+/-- Whether an entry is kept, and the state it is left in, do not depend on the request queue. -/
+theorem room_irrelevant (pgs : Option GSet) (db : List (VaaId × Bytes)) (now : Int) (st : VState) :
+    (cleanupEntry pgs db now true st = .delete ↔ cleanupEntry pgs db now false st = .delete) ∧
+    (∀ st' o, cleanupEntry pgs db now true st = .keep st' o → ∃ o', cleanupEntry pgs db now false st = .keep st' o') ∧
+    (∀ st' o, cleanupEntry pgs db now false st = .keep st' o → ∃ o', cleanupEntry pgs db now true st = .keep st' o') := by
+  unfold cleanupEntry
+  by_cases h1 : isLate db now st = true
+  · simp [if_pos h1]
+  · rw [if_neg h1, if_neg h1]
+    by_cases h2 : st.settled = false ∧ now - st.firstObserved > settlementTime
+    · rw [if_pos h2, if_pos h2]
+      exact ⟨Iff.rfl, fun st' o h => ⟨o, h⟩, fun st' o h => ⟨o, h⟩⟩
+    · rw [if_neg h2, if_neg h2]
+      by_cases h3 : st.submitted = true ∧ now - st.firstObserved ≥ oneHour
+      · simp [if_pos h3]
+      · rw [if_neg h3, if_neg h3]
+        by_cases h4 : st.submitted = false ∧ exhausted st = true
+        · simp [if_pos h4]
+        · rw [if_neg h4, if_neg h4]
+          by_cases h5 : st.submitted = false ∧ now - st.firstObserved ≥ fiveMinutes ∧ retryDue now st.lastRetry = true
+          · rw [if_pos h5, if_pos h5]
+            unfold retryAct
+            cases st.ourMsg with
+            | none => cases pgs <;> simp
+            | some o =>
+              cases st.ourVAA with
+              | none => simp
+              | some v =>
+                refine ⟨by simp, ?_, ?_⟩
+                · intro st' o' h; cases h; exact ⟨_, rfl⟩
+                · intro st' o' h; cases h; exact ⟨_, rfl⟩
+          · rw [if_neg h5, if_neg h5]
+            exact ⟨Iff.rfl, fun st' o h => ⟨o, h⟩, fun st' o h => ⟨o, h⟩⟩
+
+private theorem cleanupAll_keeps (pgs : Option GSet) (db : List (VaaId × Bytes)) (now : Int) :
+    ∀ (l : List (Bytes × VState)) (room : Nat) (l' : List (Bytes × VState)) (outs : List Out),
+      cleanupAll pgs db now l room = .ok (l', outs) →
+      (∀ d st st' r o, (d, st) ∈ l → cleanupEntry pgs db now r st = .keep st' o → (d, st') ∈ l') ∧
+      (∀ d st', (d, st') ∈ l' → ∃ st r o, (d, st) ∈ l ∧ cleanupEntry pgs db now r st = .keep st' o) := by
+  intro l
+  induction l with
+  | nil =>
+    intro room l' outs h
+    simp [cleanupAll] at h
+    obtain ⟨rfl, rfl⟩ := h
+    exact ⟨by intro d st st' r o hm; simp at hm, by intro d st' hm; simp at hm⟩
+  | cons hd tl ih =>
+    intro room l' outs h
+    obtain ⟨d0, st0⟩ := hd
+    unfold cleanupAll at h
+    split at h
+    · cases h
+    · rename_i hdel
+      obtain ⟨i1, i2⟩ := ih _ _ _ h
+      constructor
+      · intro d st st' r o hm hk
+        simp at hm
+        rcases hm with ⟨rfl, rfl⟩ | hm
+        · exfalso
+          have hri := room_irrelevant pgs db now st
+          cases r with
+          | true =>
+            cases hb : decide (room > 0) with
+            | true => rw [hb] at hdel; rw [hdel] at hk; cases hk
+            | false =>
+              rw [hb] at hdel
+              have := hri.1.2 hdel
+              rw [this] at hk; cases hk
+          | false =>
+            cases hb : decide (room > 0) with
+            | false => rw [hb] at hdel; rw [hdel] at hk; cases hk
+            | true =>
+              rw [hb] at hdel
+              have := hri.1.1 hdel
+              rw [this] at hk; cases hk
+        · exact i1 d st st' r o hm hk
+      · intro d st' hm
+        obtain ⟨st, r, o, a, b⟩ := i2 d st' hm
+        exact ⟨st, r, o, by simp [a], b⟩
+    · rename_i st1 o1 hk1
+      split at h
+      · cases h
+      · rename_i agg' outs' hrest
+        simp only [Except.ok.injEq, Prod.mk.injEq] at h
+        obtain ⟨rfl, rfl⟩ := h
+        obtain ⟨i1, i2⟩ := ih _ _ _ hrest
+        constructor
+        · intro d st st' r o hm hk
+          simp at hm
+          rcases hm with ⟨rfl, rfl⟩ | hm
+          · have hri := room_irrelevant pgs db now st
+            have : st' = st1 := by
+              cases r with
+              | true =>
+                cases hb : decide (room > 0) with
+                | true => rw [hb] at hk1; rw [hk1] at hk; cases hk; rfl
+                | false =>
+                  rw [hb] at hk1
+                  obtain ⟨o', ho'⟩ := hri.2.2 _ _ hk1
+                  rw [ho'] at hk; cases hk; rfl
+              | false =>
+                cases hb : decide (room > 0) with
+                | false => rw [hb] at hk1; rw [hk1] at hk; cases hk; rfl
+                | true =>
+                  rw [hb] at hk1
+                  obtain ⟨o', ho'⟩ := hri.2.1 _ _ hk1
+                  rw [ho'] at hk; cases hk; rfl
+            subst this
+            simp
+          · exact List.mem_cons_of_mem _ (i1 d st st' r o hm hk)
+        · intro d st' hm
+          simp at hm
+          rcases hm with ⟨rfl, rfl⟩ | hm
+          · exact ⟨st0, _, _, by simp, hk1⟩
+          · obtain ⟨st, r, o, a, b⟩ := i2 d st' hm
+            exact ⟨st, r, o, by simp [a], b⟩
+
+/-- **Lifted to the whole tick** (`handleCleanup`): an entry survives a tick exactly in the state `cleanupEntry` leaves
+it in; every entry present after the tick is such a survivor; the store is untouched. Together with the entry-level
+theorems above this gives the schedule for every reachable aggregation state and every tick sequence. -/
+theorem tick_effect (s s' : PState) (now : Int) (room : Nat) (outs : List Out)
+    (h : handleCleanup s now room = .ok s' outs) :
+    (∀ d st st' r o, (d, st) ∈ s.agg → cleanupEntry s.gs s.db now r st = .keep st' o → (d, st') ∈ s'.agg) ∧
+    (∀ d st', (d, st') ∈ s'.agg → ∃ st r o, (d, st) ∈ s.agg ∧ cleanupEntry s.gs s.db now r st = .keep st' o) ∧
+    s'.db = s.db ∧ s'.gs = s.gs := by
+  unfold handleCleanup at h
+  split at h
+  · cases h
+  · rename_i agg' o hc
+    cases h
+    obtain ⟨a, b⟩ := cleanupAll_keeps _ _ _ _ _ _ _ hc
+    exact ⟨a, b, rfl, rfl⟩
+
 /-- Non-vacuity: a concrete pending entry, five minutes old, never retried — retried by the tick. -/
 def sampleVaa : Vaa :=
   { version := 1, gsIndex := 0, sigs := [],
